@@ -33,6 +33,13 @@ type VerifC06Server struct {
 
 // VerifC06NewServer mirrors the relevant part of newServer.
 func VerifC06NewServer(params *chaincfg.Params, services *service.Services, cps []chaincfg.Checkpoint, disableCheckpoints bool) (*VerifC06Server, error) {
+	return VerifC06NewServerWithPeers(params, services, cps, disableCheckpoints, map[*peer.Peer]*peer.SyncState{})
+}
+
+// VerifC06NewServerWithPeers is VerifC06NewServer with the peer-state map supplied by the caller (in production the same
+// map is handed to service.NewNetworkService and to the sync manager).
+func VerifC06NewServerWithPeers(params *chaincfg.Params, services *service.Services, cps []chaincfg.Checkpoint, disableCheckpoints bool,
+	peers map[*peer.Peer]*peer.SyncState) (*VerifC06Server, error) {
 	v := &VerifC06Server{log: zerolog.Nop()}
 	s := &server{
 		startupTime:  time.Now().Unix(),
@@ -56,7 +63,7 @@ func VerifC06NewServer(params *chaincfg.Params, services *service.Services, cps 
 		Logger:                  &v.log,
 		Services:                services,
 		Checkpoints:             cps,
-	}, map[*peer.Peer]*peer.SyncState{})
+	}, peers)
 	if err != nil {
 		return nil, err
 	}
